@@ -851,6 +851,67 @@ def c08(stream, scen=None):
     return wit
 
 
+def c08_gate(stream, scen=None):
+    """a part passes a decision gate only if the gate's predicate accepts the part AS IT IS when it is offered: whenever
+    the routing history of a single part grows by a gate in some event, the gate's predicate holds for the quality /
+    value the part had just before that event (pass-through devices do not change a part; callbacks of the receiving
+    device run after the gate has decided).  Also for a part that meets the same gate again (rework loops, a hand-over
+    that was refused behind the gate and is repeated later)."""
+    wit = []
+    pred = {}
+    di = 0
+    for l in scen or []:
+        if l[:2] == ['asset', 'dev']:
+            if l[2] == 'gate':
+                kv = dict(t.split('=', 1) for t in l[3:] if '=' in t)
+                pred[di] = kv.get('pred', 'always').split(':')
+            di += 1
+        elif l[:2] == ['asset', 'group']:
+            di += 2
+        elif l[0] in ('script', 'ext') and 'create' in l[1:3]:
+            break                   # device indices after a creation at run time are not tracked here
+    if not any(p[0] not in ('always',) for p in pred.values()):
+        return wit
+
+    def holds(pr, q, v):
+        if pr[0] == 'always':
+            return True
+        if pr[0] == 'never':
+            return False
+        x = q if pr[0][0] == 'q' else v
+        return x >= int(pr[1]) if pr[0].endswith('ge') else x < int(pr[1])
+    fs = frames(stream)
+    prev = None
+    for i, f in enumerate(fs):
+        if f.trigger[0] == 'abort':
+            return wit
+        if f.now is None or f.trigger[0] in ('ran', 'runbegin'):
+            continue
+        parts = parts_of(f.state)
+        if prev is not None:
+            old = parts_of(prev.state)
+            inside = {k for r in list(parts.values()) + list(old.values()) if r['kids'] for k in r['kids']}
+            for p, r in parts.items():
+                o = old.get(p)
+                if o is None or r['kids'] is not None or o['kids'] is not None or p in inside:
+                    continue        # (a batch is judged by the gate as a whole; its members only follow it)
+                h0, h1 = o['hist'], r['hist']
+                if len(h1) <= len(h0) or h1[:len(h0)] != h0:
+                    continue
+                try:
+                    q, v = int(o['q']), int(o['v'])
+                except ValueError:
+                    continue
+                for g in h1[len(h0):]:
+                    if g in pred and not holds(pred[g], q, v):
+                        wit.append(f'frame {i} (t={f.now}): part {p} (quality {q}, value {v}) passed gate {g} whose predicate '
+                                   f'{":".join(pred[g])} rejects it; history {h1[-6:]}')
+        prev = f
+        if len(wit) > 3:
+            break
+    return wit
+
+
 def c11(stream, scen=None):
     """a processor with required resources has a part in process only while holding exactly them;
     pool usage = sum of the processors' holdings; no idle operational processor holds resources when
@@ -1031,8 +1092,9 @@ def c15(stream, scen=None):
 def c16(stream, scen=None):
     """value bookkeeping checked on the live objects by the runner (ValueRunner); plus, from the
     stream: a source's value is minus the summed value its supplied parts had when they were
-    supplied, a sink's value the summed value of the parts at receipt."""
-    wit = [l for l in stream if l.startswith('valbad')][:5]
+    supplied, a sink's value the summed value of the parts at receipt; inside a receive callback registered on a
+    sink the sink's public counters already contain the part (marker `sinkcb-unbooked` of the runner)."""
+    wit = [l for l in stream if l.startswith(('valbad', 'res sinkcb-unbooked'))][:5]
     fs = frames(stream)
     prev_parts = {}
     cost, recv = {}, {}
@@ -1266,7 +1328,7 @@ def c06_source(stream, scen=None):
     return wit
 
 
-MONITORS.update({'C02': [c02], 'C03': [c03], 'C05': [c05], 'C08': [c08, c08_idle], 'C11': [c11], 'C13': [c13],
+MONITORS.update({'C02': [c02], 'C03': [c03], 'C05': [c05], 'C08': [c08, c08_idle, c08_gate], 'C11': [c11], 'C13': [c13],
                  'C15': [c15], 'C16': [c16], 'C17': [c17, c05, c17_hist]})
 
 
@@ -1274,9 +1336,50 @@ MONITORS.update({'C02': [c02], 'C03': [c03], 'C05': [c05], 'C08': [c08, c08_idle
 NEG = float('-inf')
 
 
+def serial_topups(scen):
+    """Budget top-ups of the source of a serial scenario: [(time, amount)] in ticks, or None when the scenario changes
+    the budget in a way the reference does not describe (a reduction, or an operation before the first run).  Two
+    forms are understood: `script k adjust 0 n` scheduled from outside with `ext sched t a k p` / `ext schedrel ..`
+    (executed at that instant if it is not in the past), and `ext adjust 0 n` between two runs (executed at the
+    clock value reached by the runs so far)."""
+    scripts = {}
+    for l in scen:
+        if l[0] == 'script':
+            scripts.setdefault(l[1], []).append(l[2:])
+    ups = []
+    now = 0
+    started = False
+
+    def add(t, op):
+        if op[0] != 'adjust':
+            return True
+        if op[1] != '0' or int(op[2]) < 0:
+            return False
+        ups.append((t, int(op[2])))
+        return True
+    for l in scen:
+        if l[0] == 'run':
+            now += int(l[1])
+            started = True
+        elif l[0] == 'ext' and l[1] in ('sched', 'schedrel'):
+            t = int(l[2]) + (now if l[1] == 'schedrel' else 0)
+            if t < now:
+                continue        # a request in the past is rejected
+            for op in scripts.get(l[4], []):
+                if not add(t, op):
+                    return None
+        elif l[0] == 'ext' and l[1] == 'adjust':
+            if not started or not add(now, l[1:]):
+                return None
+    return sorted(ups)
+
+
 def serial_ref(scen, nparts):
     """Reference recurrence for a serial line: E[j][k] = time part k (1-based) enters station j.
-    Stations: 0 = source, 1..n-1 = handler/processor (cycle c) or buffer (delay, capacity K), n = sink."""
+    Stations: 0 = source, 1..n-1 = handler/processor (cycle c) or buffer (delay, capacity K), n = sink.
+    A source whose budget is topped up: part k is PERMITTED from the instant tau_k at which the budget reaches k; the
+    source starts its next cycle when the previous part leaves it (whatever the budget), so part k leaves at
+    max(D(0,k-1) + c_0, tau_k, space downstream)."""
     st = []
     for l in scen:
         if l[:2] == ['asset', 'dev']:
@@ -1296,8 +1399,14 @@ def serial_ref(scen, nparts):
             c[j] = int(kv.get('cyc', '0'))
     budget = st[0][1].get('budget', 'def')
     budget = None if budget in ('def', 'inf') else int(budget)
+    tau = {}
     if budget is not None:
-        nparts = min(nparts, budget)
+        total = budget
+        for t, a in serial_topups(scen) or []:
+            for k in range(total + 1, total + a + 1):
+                tau[k] = t
+            total += a
+        nparts = min(nparts, total)
     D = [[NEG] * (nparts + 2) for _ in range(n + 1)]   # D[j][k]: part k leaves station j (k>=1)
     E = [[NEG] * (nparts + 2) for _ in range(n + 2)]
 
@@ -1311,7 +1420,7 @@ def serial_ref(scen, nparts):
 
     for k in range(1, nparts + 1):
         g = c[0] if k == 1 else D[0][k - 1] + c[0]
-        D[0][k] = max(g, free(1, k))
+        D[0][k] = max(g, tau.get(k, NEG), free(1, k))
         for j in range(1, n + 1):
             E[j][k] = D[j - 1][k]
             if j == n:
@@ -1325,11 +1434,16 @@ def serial_ref(scen, nparts):
 
 def c04(stream, scen):
     """serial line: the time the k-th part enters each station equals the blocking-after-service
-    recurrence (exactly)."""
+    recurrence (exactly), and when a run call returns at clock value T (every run of a horizon split over several
+    calls, calls of length 0 included) exactly the entries due no later than T have happened."""
     wit = []
+    kinds = [l[2] for l in scen if l[:2] == ['asset', 'dev']]
+    if len(kinds) < 2 or kinds[0] != 'source' or kinds[-1] != 'sink' or serial_topups(scen) is None:
+        return wit          # not a serial line source -> stations -> sink (e.g. a shrinking candidate without its sink)
     fs = frames(stream)
     seen = {}
     horizon = 0
+    marks = []          # (clock value at which a run call returned, entries per station so far)
     for f in fs:
         if f.trigger[0] == 'abort':
             return wit
@@ -1339,13 +1453,26 @@ def c04(stream, scen):
             t = rec.split()
             if t[0] == 'received_part':
                 seen.setdefault(int(t[1]), []).append(int(t[2]))
+        if f.trigger[0] == 'ran':
+            marks.append((f.trigger[1], {j: len(v) for j, v in seen.items()}))
     nparts = max([len(v) for v in seen.values()] + [0]) + 3
     E, n = serial_ref(scen, nparts)
+    # what had to be done when the m-th run call returned: the reference of the scenario UP TO that call (a top-up
+    # made from outside afterwards, at the same clock value, belongs to the next call)
+    runs = [i for i, l in enumerate(scen) if l[0] == 'run']
+    partial = [serial_ref(scen[:i + 1], nparts)[0] for i in runs[:len(marks)]]
     for j in range(1, n + 1):
         got = seen.get(j, [])
         exp = [int(x) for x in E[j][1:] if x != NEG and x <= horizon]
-        if got != exp[:len(got)] or (len(exp) > len(got) and any(x < horizon for x in exp[len(got):])):
+        if got != exp:
             wit.append(f'station {j}: parts entered at {got[:8]}..., the reference recurrence gives {exp[:8]}... (horizon {horizon})')
+            continue
+        for (T, cnt), Em in zip(marks, partial):
+            due = sum(1 for x in Em[j][1:] if x != NEG and x <= T)
+            if cnt.get(j, 0) != due:
+                wit.append(f'station {j}: when the run call returned at t={int(T)}, {cnt.get(j, 0)} parts had entered; the reference '
+                           f'recurrence has {due} entries up to that instant ({exp[:8]}...)')
+                break
     return wit
 
 
@@ -1450,4 +1577,100 @@ def c06(stream, scen=None):
     return wit
 
 
-MONITORS['C06'] = [c06, c06_source]
+def c06_oneshot(stream, scen=None):
+    """a one-shot offset is kept until the next cycle of its device STARTS, whatever happens in between (the first
+    run call and its initialisation included), and it counts for that cycle:
+    (1) the offset of a source / handler / processor / sink changes from a non-zero value only in an event in which
+        that device starts a cycle (it receives a part; a source supplies one or is started), or by an explicit
+        offset operation / callback of the scenario;
+    (2) a source supplies its next part no sooner than max(0, cycle time + one-shot offset) -- both as they were just
+        before the cycle started -- after the start of that cycle (the start of the simulation for the first one)."""
+    wit = []
+    script_off = {}      # script -> devices whose offset it changes
+    fincb = set()
+    initial = set()      # sources that exist before the first run
+    di = 0
+    seen_run = False
+    for l in scen or []:
+        if l[0] == 'run':
+            seen_run = True
+        if l[0] == 'script' and len(l) > 3 and l[2] == 'offset':
+            script_off.setdefault(int(l[1]), set()).add(int(l[3]))
+        if l[:2] == ['asset', 'dev']:
+            if any(t.startswith('fincb=') for t in l[3:]):
+                fincb.add(di)
+            if l[2] == 'source' and not seen_run:
+                initial.add(di)
+            di += 1
+        elif l[:2] == ['asset', 'group']:
+            di += 2
+    fs = frames(stream)
+    prev = None
+    after_runbegin = False
+    first_init_done = False
+    start = {}           # source -> (start of the current cycle, cycle time in effect)
+    for i, f in enumerate(fs):
+        if f.trigger[0] == 'abort':
+            return wit
+        if f.trigger[0] == 'runbegin':
+            after_runbegin = True
+            continue
+        if f.now is None or f.trigger[0] == 'ran':
+            continue
+        init_frame = after_runbegin and f.trigger[0] == 'ext'
+        first_init = init_frame and not first_init_done
+        after_runbegin = False
+        devs = devs_of(f.state)
+        pd = devs_of(prev.state) if prev is not None else {}
+        recv = set()
+        supplied = {}
+        produced = set()
+        for rec in f.recs:
+            t = rec.split()
+            if t[0] == 'received_part':
+                recv.add(int(t[1]))
+            elif t[0] == 'supplied_new_part':
+                supplied[int(t[1])] = num(t[2])
+            elif t[0] == 'produced_part':
+                produced.add(int(t[1]))
+        by_script = set()
+        if f.trigger[0] == 'ev' and f.trigger[1]['act'] % 16 == 1:
+            by_script = script_off.get(f.trigger[1]['act'] // 16, set())
+        if f.trigger[0] == 'ev' or init_frame:
+            for x, d in devs.items():
+                if d.kind not in ('source', 'handler', 'processor', 'sink') or x not in pd:
+                    continue
+                try:
+                    old, new = num(pd[x].f.get('off', '0')), num(d.f.get('off', '0'))
+                except ValueError:
+                    continue
+                if old == 0 or old == new or x in by_script:
+                    continue
+                started = x in recv or x in supplied or (d.kind == 'source' and first_init and x in initial)
+                if not started and not (x in fincb and x in produced):
+                    wit.append(f'frame {i} (t={f.now}): {d.kind} {x} lost its one-shot cycle-time offset ({pd[x].f.get("off")} -> '
+                               f'{d.f.get("off")}) without starting a cycle')
+        for x, d in devs.items():
+            if d.kind != 'source':
+                continue
+            o = pd.get(x, d)
+            try:
+                ceff = max(0, num(o.f.get('cyc', '0')) + (num(o.f.get('off', '0')) if x in pd else 0))
+            except ValueError:
+                continue
+            if x in supplied:
+                if x in start and supplied[x] < start[x][0] + start[x][1] and not close(supplied[x], start[x][0] + start[x][1]):
+                    wit.append(f'frame {i}: source {x} supplied a part at {supplied[x]}; its cycle started at {start[x][0]} with cycle '
+                               f'time + one-shot offset {start[x][1]}')
+                start[x] = (supplied[x], ceff)
+            elif first_init and x in initial:
+                start[x] = (f.now, ceff)
+        if init_frame:
+            first_init_done = True
+        prev = f
+        if len(wit) > 4:
+            break
+    return wit
+
+
+MONITORS['C06'] = [c06, c06_source, c06_oneshot]
